@@ -309,6 +309,8 @@ def merge(rep, results, prop):
                 kind, fk, text = b["crash"]
                 ok_world = False
                 wit = open(os.path.join(w["dir"], "world.wit")).read()
+                text = re.sub(r"/var/tmp/verif-\d+-\w+/w\d+/gen/", "", text)
+                text = re.sub(r"0x[0-9a-f]+|==\d+==|\(BuildId: [0-9a-f]+\)|\+0x[0-9a-f]+", "", text)
                 rpl = {"wit": wit, "opts": w["opts"], "build": b["build"], "last_call": b["last_call"], "stderr": text}
                 m = re.match(r"BEGIN (\w+) (\d+) set (\d+)", b["last_call"] or "")
                 if m:
@@ -320,10 +322,10 @@ def merge(rep, results, prop):
                     rep.inconc("LeakSanitizer report at exit (ownership is judged by C11)")
                 elif prop == "C11" or kind == "ub":
                     rep.violation("c-mem:%s:%s" % (kind, fk), "sanitizer report in generated code (%s) during %s [options %s, build %s]: %s"
-                                  % (fk, b["last_call"], w["opts"], b["build"], text[-700:]), rpl)
+                                  % (fk, b["last_call"], w["opts"], b["build"], text[:700]), rpl)
                 else:
                     rep.violation("c-e2e:sanitizer:%s:%s" % (kind, fk), "sanitizer report in generated code (%s) during %s [options %s, build %s]: %s"
-                                  % (fk, b["last_call"], w["opts"], b["build"], text[-700:]), rpl)
+                                  % (fk, b["last_call"], w["opts"], b["build"], text[:700]), rpl)
         if ok_world:
             judged += 1
             variants[w["opts"]] = variants.get(w["opts"], 0) + 1
